@@ -25,4 +25,5 @@ def run(chk):
     chk.assume("floating-point accuracy of expm/eig is not decided by any proof; tolerance 1e-8 in the bounded tier")
     chk.level = "other" if chk.obligations else "exploration"
     chk.explanation = ("bounded run-time contracts on every supplied model x parameter grid x lengths x expm settings; "
-                       "algebraic calcQ lemmas (zero row sums, off-diagonal sign, calibration, stationarity, detailed balance) in Lean 4 + Mathlib over terms translated from both calcQ bodies")
+                       "algebraic calcQ lemmas (zero row sums, off-diagonal sign, calibration, stationarity, detailed balance) in Lean 4 + Mathlib over terms translated from both calcQ bodies; "
+                       "the same clauses for every named nucleotide (thorough: protein) model by running the real calcQ on symbolic reals (identities / sign certificates, sympy)")
